@@ -174,6 +174,10 @@ class TheoryOracle(walkers.DagWalker):
             theory.strings = True
         elif ty.is_custom_type():
             theory.custom_type = True
+            # The sorts used as arguments of a sort constructor
+            # (e.g., Int in (Lst Int)) must be part of the theory
+            for arg_ty in ty.args:
+                theory = theory.combine(self._theory_from_type(arg_ty))
         else:
             # ty is either a function type
             theory.uninterpreted = True
